@@ -145,6 +145,40 @@ def _subquery_predicate_as_value(sql: str) -> bool:
     return False
 
 
+def _nonagg_scalar_subquery_outside_conjunct(sql: str) -> bool:
+    """Does the WHERE clause hold a scalar sub-query (a sub-query used as a value, not under IN/ANY/ALL/EXISTS) whose SELECT is not
+    an aggregate -- so it may return no row, i.e. NULL -- at a place that is not a plain top-level conjunct comparison (under
+    OR / NOT / a function such as COALESCE / IS)?  There `NULL` and `no row to join with` are observably different."""
+    import sqlglot
+    from sqlglot import exp
+
+    try:
+        tree = sqlglot.parse_one(sql, read="duckdb")
+    except Exception:
+        return False
+    for sub in tree.find_all(exp.Subquery):
+        inner = sub.this
+        if not isinstance(inner, exp.Select) or isinstance(sub.parent, (exp.In, exp.Any, exp.All, exp.Exists, exp.From, exp.Join, exp.Table)):
+            continue
+        if inner.args.get("group") or any(s.find(exp.AggFunc) for s in inner.selects):
+            continue
+        anc, plain, in_where = sub.parent, True, False
+        first = True
+        while anc is not None and not isinstance(anc, exp.Select):
+            if isinstance(anc, exp.Where):
+                in_where = True
+                break
+            if first and isinstance(anc, (exp.GT, exp.GTE, exp.LT, exp.LTE, exp.EQ, exp.NEQ)):
+                pass  # the comparison that consumes the scalar
+            elif not isinstance(anc, (exp.And, exp.Paren)):
+                plain = False
+            first = False
+            anc = anc.parent
+        if in_where and not plain:
+            return True
+    return False
+
+
 def region_of(o: dict, prog: dict, open_f: list) -> str | None:
     """Known-finding regions (known_findings.json) as predicates over one obligation of one program."""
     ids = {f["id"] for f in open_f}
@@ -156,6 +190,9 @@ def region_of(o: dict, prog: dict, open_f: list) -> str | None:
             return "C03-right-join-on-true-to-cross"
         if "C03-subquery-predicate-as-value" in ids and rule == "unnest_subqueries" and _subquery_predicate_as_value(before):
             return "C03-subquery-predicate-as-value"
+        if "C03-unnest-nonaggregate-scalar-outside-conjunct" in ids and rule == "unnest_subqueries" and _nonagg_scalar_subquery_outside_conjunct(before) \
+                and after.count("JOIN") > before.count("JOIN"):
+            return "C03-unnest-nonaggregate-scalar-outside-conjunct"
         if "C03-cross-join-limit1-eliminated" in ids and rule == "eliminate_joins" and "CROSS JOIN" in before and "LIMIT 1" in before \
                 and after.count("CROSS JOIN") < before.count("CROSS JOIN"):
             return "C03-cross-join-limit1-eliminated"
@@ -172,6 +209,8 @@ def region_of(o: dict, prog: dict, open_f: list) -> str | None:
         # a step may be undecided (unsupported intermediate form): fall back to the program itself
         if "C03-subquery-predicate-as-value" in ids and _subquery_predicate_as_value(o["before"]):
             return "C03-subquery-predicate-as-value"
+        if "C03-unnest-nonaggregate-scalar-outside-conjunct" in ids and _nonagg_scalar_subquery_outside_conjunct(o["before"]):
+            return "C03-unnest-nonaggregate-scalar-outside-conjunct"
         return None
     regs = [step_region(x["rule"], x["before"], x["after"]) for x in failing]
     return regs[0] if all(regs) else None
